@@ -570,6 +570,19 @@ typedef struct lk_s {
 
 static int g_confirm_budget = 1, g_confirmed_case = -1;
 
+/* LIFEMON_TIMING=1: wall time per action kind on stderr (cost analysis only, never a verdict) */
+static double g_tacc[32];
+static int g_tcnt[32];
+static const char *g_tname[32];
+static void tacc(int slot, const char *name, double t0) {
+  g_tacc[slot] += vh_now() - t0; g_tcnt[slot]++; g_tname[slot] = name;
+}
+static void tacc_dump(void) {
+  int i;
+  if (!getenv("LIFEMON_TIMING")) return;
+  for (i = 0; i < 32; i++) if (g_tcnt[i]) fprintf(stderr, "timing %-22s n=%6d total=%8.3fs avg=%7.2fms\n", g_tname[i], g_tcnt[i], g_tacc[i], 1e3 * g_tacc[i] / g_tcnt[i]);
+}
+
 static const char *alias_names[] = {"same-path", "relative", "decorated-path", "symlink"};
 
 static void lk_event(ldbs_t *D, const char *fmt, ...) __attribute__((format(printf, 2, 3)));
@@ -1137,34 +1150,35 @@ static void lock_case(int caseidx) {
   for (g_step = 0; g_step < steps && !L->abandon; g_step++) {
     ldbs_t *D = &L->d[vr_uniform(&L->r, (uint32_t)L->ndb)];
     uint32_t c = vr_uniform(&L->r, 100);
+    double ts = vh_now();
     if (D->is_open) {
-      if (c < 18) lk_write_some(L, D, 1 + (int)vr_uniform(&L->r, 5));
-      else if (c < 21) { if (ldb_test_compact_memtable(D->h.db) != LDB_OK) lv("write-failed", "flush failed"); }
-      else if (c < 29) lk_second_open(L, D, 0);
-      else if (c < 37) lk_second_open(L, D, 1);
-      else if (c < 45) lk_second_open(L, D, 2);
-      else if (c < 53) lk_second_open(L, D, 3);
-      else if (c < 59) lk_fork_child(L, D);
-      else if (c < 68) lk_helper(L, D);
-      else if (c < 73) lk_copy_destroy_open(L, D, 0);
-      else if (c < 78) lk_copy_destroy_open(L, D, 1);
-      else if (c < 82) lk_backup_existing(L, D);
-      else if (c < 85) lk_verify_first(L, D, "nothing");
-      else lk_close(L, D);
+      if (c < 18) { lk_write_some(L, D, 1 + (int)vr_uniform(&L->r, 5)); tacc(0, "write", ts); }
+      else if (c < 21) { if (ldb_test_compact_memtable(D->h.db) != LDB_OK) lv("write-failed", "flush failed"); tacc(1, "flush", ts); }
+      else if (c < 30) { lk_second_open(L, D, 0); tacc(2, "second-open-same", ts); }
+      else if (c < 39) { lk_second_open(L, D, 1); tacc(3, "second-open-relative", ts); }
+      else if (c < 48) { lk_second_open(L, D, 2); tacc(4, "second-open-decorated", ts); }
+      else if (c < 57) { lk_second_open(L, D, 3); tacc(5, "second-open-symlink", ts); }
+      else if (c < 60) { lk_fork_child(L, D); tacc(6, "fork-child", ts); }
+      else if (c < 68) { lk_helper(L, D); tacc(7, "other-process(open)", ts); }
+      else if (c < 73) { lk_copy_destroy_open(L, D, 0); tacc(8, "copy-open", ts); }
+      else if (c < 78) { lk_copy_destroy_open(L, D, 1); tacc(9, "destroy-open", ts); }
+      else if (c < 82) { lk_backup_existing(L, D); tacc(10, "backup-existing", ts); }
+      else if (c < 85) { lk_verify_first(L, D, "nothing"); tacc(11, "verify", ts); }
+      else { lk_close(L, D); tacc(12, "close", ts); }
       nrefused += D->refusals_since_open > 0;
     } else {
       if (!D->exists) {
-        if (c < 20) lk_failed_open(L, D, FO_MISSING);
-        else lk_open(L, D);
-      } else if (c < 30) lk_open(L, D);
-      else if (c < 40) lk_failed_open(L, D, FO_CMP);
-      else if (c < 49) lk_failed_open(L, D, FO_EXISTS);
-      else if (c < 54) lk_failed_open(L, D, FO_MISSING);
-      else if (c < 66) lk_failed_open(L, D, FO_CURRENT);
-      else if (c < 78) lk_failed_open(L, D, FO_IO);
-      else if (c < 86) lk_helper(L, D);
-      else if (c < 93) lk_copy_closed(L, D);
-      else lk_destroy_closed(L, D);
+        if (c < 20) { lk_failed_open(L, D, FO_MISSING); tacc(13, "failed-open-missing", ts); }
+        else { lk_open(L, D); tacc(14, "open", ts); }
+      } else if (c < 30) { lk_open(L, D); tacc(14, "open", ts); }
+      else if (c < 40) { lk_failed_open(L, D, FO_CMP); tacc(15, "failed-open-cmp", ts); }
+      else if (c < 49) { lk_failed_open(L, D, FO_EXISTS); tacc(16, "failed-open-exists", ts); }
+      else if (c < 54) { lk_failed_open(L, D, FO_MISSING); tacc(13, "failed-open-missing", ts); }
+      else if (c < 66) { lk_failed_open(L, D, FO_CURRENT); tacc(17, "failed-open-current", ts); }
+      else if (c < 78) { lk_failed_open(L, D, FO_IO); tacc(18, "failed-open-io", ts); }
+      else if (c < 86) { lk_helper(L, D); tacc(19, "other-process(closed)", ts); }
+      else if (c < 93) { lk_copy_closed(L, D); tacc(20, "copy-closed", ts); }
+      else { lk_destroy_closed(L, D); tacc(21, "destroy-closed", ts); }
     }
   }
   /* epilogue: every database closes, reopens with its contents, closes */
@@ -2444,7 +2458,9 @@ int main(int argc, char **argv) {
   }
   vh_init(NULL);
   signal(SIGPIPE, SIG_IGN);
-  mallopt(M_MMAP_THRESHOLD, 64 << 20);
+  mallopt(M_MMAP_THRESHOLD, 64 << 20);   /* page faults are the dominant cost in the sandbox: keep the heap */
+  mallopt(M_TRIM_THRESHOLD, 512 << 20);
+  mallopt(M_TOP_PAD, 16 << 20);
   vh_mkdir_p(base);
   rp = realpath(base, NULL);
   if (rp == NULL) vh_fatal("cannot resolve %s", base);
@@ -2464,6 +2480,7 @@ int main(int argc, char **argv) {
 #endif
   }
   helper_stop();
+  tacc_dump();
   vh_finish();
   return 0;
 }
